@@ -166,3 +166,6 @@ namespace W { inline int positive_example_gmtime(std::time_t t) { const std::tm*
 
 // positive example for the zero-expected rule C01 R1.10 / C10 R10.16 (never called)
 namespace W { inline unsigned positive_example_narrow_counter(const std::string& s) { unsigned char quotes = 0; for (const char c : s) { if (c == '"') { ++quotes; } } return quotes; } }
+
+// positive example for the zero-expected rule C02 R2.13 (never called)
+namespace W { inline unsigned positive_example_unaligned_load(const char* bytes) { return *reinterpret_cast<const unsigned*>(bytes + 1); } }
